@@ -33,6 +33,7 @@ Tied to /repo by `harness/lib/encode_request_check.py`: byte equality of `reques
 `RequestMessage.read` on the model's bytes, and requests emitted by the real ProxyKmipClient.
 -/
 import KmipModel.Lemmas.EncodeRequestPayloads
+import KmipModel.Lemmas.EncodeRequestExact
 import KmipModel.Props.C02
 import KmipModel.Props.C01
 import KmipModel.Props.Server
@@ -83,6 +84,33 @@ theorem request_wellformed (r : Request) (h : Encodable r) : WF (requestBytes r)
 theorem request_strict_decodes (r : Request) (h : Encodable r) : decodeAll (requestBytes r) = some (encRequest r) :=
   C01.decodeAll_encode _ (encRequest_valid r h)
 
+/-- the version, header fields, batch IDs and the number of items survive `norm` unconditionally -/
+theorem norm_envelope (r : Request) :
+    (norm r).version = r.version ∧ (norm r).timeStamp = r.timeStamp ∧ (norm r).async = r.async ∧
+    (norm r).batchOption = r.batchOption ∧ (norm r).maxResponseSize = r.maxResponseSize ∧
+    (norm r).items.map (·.batchId) = r.items.map (·.batchId) ∧
+    (norm r).items.map (·.payload.op) = r.items.map (·.payload.op) := by
+  refine ⟨rfl, rfl, rfl, rfl, rfl, ?_, ?_⟩
+  · simp only [norm, List.map_map]; rfl
+  · simp only [norm, List.map_map]
+    apply List.map_congr_left
+    intro it _
+    obtain ⟨p, b, c⟩ := it
+    simp only [Function.comp, normItem]
+    cases p <;> simp only [normPayload] <;> first | rfl | (split <;> rfl)
+
+/-- **on `Exact` requests `norm` only forgets the scripted backend outcome** (which is not on the wire) -/
+theorem norm_exact (r : Request) (h : Exact r) : norm r = eraseCrypto r := EncodeRequest.norm_exact r h
+
+/-- … so the engine model cannot tell `norm r` from `r` once the backend's answers are filled in: the request the
+server model hands to `processRequest` is the same (for a backend whose answers do not depend on the placeholders) -/
+theorem norm_runs_like (orc : Server.Oracle) (r : Request) (h : Exact r) (ho : orc (norm r) = orc r) :
+    Server.withOracle orc (norm r) = Server.withOracle orc r := by
+  rw [EncodeRequest.norm_exact r h] at ho ⊢
+  obtain ⟨v, ts, as, bo, mx, items⟩ := r
+  simp only [Server.withOracle, eraseCrypto] at ho ⊢
+  rw [ho, fillCrypto_erase]
+
 /-! ## through the composed server model -/
 
 /-- **A frame the client side encodes for a request of the domain, sent by a client whose identity is established,
@@ -95,12 +123,22 @@ theorem client_frame_reaches_engine (w : Server.World) (cfg : Session.SessionCfg
   ServerProps.decoded_frame_runs_engine w cfg peer e (requestBytes r) (norm r) id
     (request_roundtrip w.defaultVer r h) hid
 
-/-- an `Encodable` request is never dropped by the decoder: the frame is not a no-op of the undecodable kind -/
+/-- **… and for an `Exact` request the server model ends in the state `processRequest` reaches on `r` itself** -/
+theorem served_like_original (w : Server.World) (cfg : Session.SessionCfg) (peer : Option Session.Cert)
+    (e : Engine) (r : Request) (id : Identity) (h : Encodable r) (hx : Exact r) (ho : w.oracle (norm r) = w.oracle r)
+    (hid : Session.establish cfg.auth peer = .ok id) :
+    (Session.handleMessage (Server.serverEnv w) cfg peer e (requestBytes r)).2 =
+      (processRequest (w.ctxOf e) e id (Server.withOracle w.oracle r)).1 := by
+  rw [(client_frame_reaches_engine w cfg peer e r id h hid).2, norm_runs_like w.oracle r hx ho]
+
+theorem parse_of_decode (w : Server.World) (bs : Bytes) (req : Request)
+    (h : Decode.decodeFrame w.defaultVer bs = .ok req) : Server.parse w bs = some req := by
+  unfold Server.parse; rw [h]
+
+/-- an `Encodable` request is never dropped by the decoder: `RequestMessage.read` as the session calls it succeeds -/
 theorem client_frame_parses (w : Server.World) (r : Request) (h : Encodable r) :
-    Server.parse w (requestBytes r) = some (norm r) := by
-  have h' : Decode.decodeFrame w.defaultVer (requestBytes r) = .ok (norm r) := request_roundtrip w.defaultVer r h
-  unfold Server.parse
-  rw [h']
+    Server.parse w (requestBytes r) = some (norm r) :=
+  parse_of_decode w _ _ (request_roundtrip w.defaultVer r h)
 
 /-! ## non-vacuity: concrete requests of the domain -/
 
@@ -121,6 +159,10 @@ def createReq20 : Request :=
 example : Encodable activateReq := by decide +kernel
 example : Encodable locateReq := by decide +kernel
 example : Encodable createReq20 := by decide +kernel
+example : Exact activateReq ∧ Exact locateReq ∧ Exact createReq20 := by decide +kernel
+/-- not exact: a KMIP 2.0 template with an attribute index (the `Attributes` structure has no place for it) -/
+example : ¬ Exact { createReq20 with items := [⟨.create 2 (some ⟨0, [⟨"Name", some 0, .name "k" 1⟩]⟩), none, .internal⟩] } := by
+  decide +kernel
 
 /-- the frame of the Activate request is the 120 bytes PyKMIP writes for it (`requestBytes` evaluated) -/
 example : (requestBytes activateReq).length = 120 := by decide +kernel
